@@ -134,6 +134,19 @@ theorem table_rows_wellformed (F : TableFacts es gs) :
   intro z'
   exact mcnp_ne_elemental _ z' f.1 m
 
+/-- **every identifier of every nuclide of the table decodes to its (z, a, state)**: the AAAZZZS id by itself, the MCNP id
+with the mass window of the nuclide's element (Am-242 ground / first isomer swapped as MCNP does) -/
+theorem table_ids_decode (F : TableFacts es gs) :
+    ∀ g ∈ gs, ∀ r ∈ g.rows, aaazzzsDecode (aaazzzsId r) = (r.z, r.a, r.s) ∧
+      mcnpDecode g.a0 (mcnpId r) = (r.z, r.a, r.s) := by
+  intro g hg r hr
+  simp only [Group.rows, List.mem_map] at hr
+  obtain ⟨i, hi, rfl⟩ := hr
+  have f := F.iso g hg i hi
+  have z := F.zRange g hg
+  exact ⟨ids_encode_zas _ z.2 (by (try dsimp only); omega),
+    mcnp_decodes _ g.a0 f.2.2.2.2.1 f.2.2.2.2.2 f.2.1 f.2.2.1⟩
+
 /-- the rows with a given atomic number are exactly one group (so the per-group statements below are
 per-element statements) -/
 theorem table_group_is_element (F : TableFacts es gs) :
@@ -309,6 +322,10 @@ theorem nuclides_wellformed : ∀ r ∈ allRows groups,
     (∃ e ∈ elements, e.z = r.z ∧ e.sym = r.sym) ∧ r.z + r.n = r.a ∧ r.s ≤ 3 ∧ 1 ≤ r.a ∧
       r.z < 1000 ∧ mcnpA r.z r.a r.s < 1000 ∧ ∀ z', mcnpId r ≠ mcnpNatural z' := table_rows_wellformed facts
 
+/-- **AAAZZZS and MCNP ids of all nuclides of nuclides.dat decode to their (z, a, state)** -/
+theorem nuclides_ids_decode : ∀ g ∈ groups, ∀ r ∈ g.rows, aaazzzsDecode (aaazzzsId r) = (r.z, r.a, r.s) ∧
+    mcnpDecode g.a0 (mcnpId r) = (r.z, r.a, r.s) := table_ids_decode facts
+
 theorem nuclides_group_is_element : ∀ g ∈ groups, ∀ r ∈ allRows groups, r.z = g.z → r ∈ g.rows :=
   table_group_is_element facts
 
@@ -361,6 +378,50 @@ theorem ta180m_is_natural : ∃ g ∈ groups, g.z = 73 ∧ 1801 ∈ (naturalIsot
 
 /-- non-vacuity: the table is not empty and contains U-235 -/
 example : (⟨92, 21 * 27, 235, 0, 143, 720400000000000⟩ : Row) ∈ allRows groups := by decide +kernel
+
+end Table
+
+/-! ### elemental (natural) nuclides -/
+
+/-- **an elemental nuclide's name / label (the bare symbol) is never the name or the label of an isotope**:
+isotope names and labels continue with a digit, symbols contain none -/
+theorem elemental_name_ne_isotope (sym : Nat) (r : Row) (hv : symValid sym = true) :
+    symChars sym ≠ nameChars r ∧ ∀ l, labelCharsOf r = some l → symChars sym ≠ l := by
+  have hdig : ∀ (pre : List Char) (n : Nat) (post : List Char), symChars sym ≠ pre ++ digits n ++ post := by
+    intro pre n post h
+    obtain ⟨c, cs, hc⟩ := List.exists_cons_of_ne_nil (digits_ne_nil n)
+    have hcd : c.isDigit = true := digits_isDigit (n := n) (by rw [hc]; simp)
+    have hmem : c ∈ symChars sym := by rw [h, hc]; simp
+    have := symChars_not_digit hv hmem
+    rw [hcd] at this; cases this
+  constructor
+  · unfold nameChars; exact hdig _ _ _
+  · intro l hl
+    unfold labelCharsOf at hl
+    split at hl
+    · cases hl
+    · simp only [Option.some.injEq] at hl
+      rw [← hl]; exact hdig _ _ _
+
+namespace Table
+open Gen
+
+/-- **elemental nuclides (one per element of elements.dat; name = label = symbol, MCNP id = Z·1000) never share an
+identifier with each other or with any isotope of nuclides.dat** -/
+theorem elementals_ids_unique :
+    (∀ e1 ∈ elements, ∀ e2 ∈ elements, (symChars e1.sym = symChars e2.sym ∨ mcnpNatural e1.z = mcnpNatural e2.z) → e1 = e2) ∧
+    (∀ e ∈ elements, ∀ r ∈ allRows groups, symChars e.sym ≠ nameChars r ∧
+      (∀ l, labelCharsOf r = some l → symChars e.sym ≠ l) ∧ mcnpId r ≠ mcnpNatural e.z) := by
+  constructor
+  · intro e1 h1 e2 h2 h
+    obtain ⟨hiff, heq⟩ := z_symbol_bijection e1 h1 e2 h2
+    rcases h with h | h
+    · exact heq (symChars_injective (element_symbols_wellformed e1 h1) (element_symbols_wellformed e2 h2) h)
+    · have hz : e1.z = e2.z := by simp only [mcnpNatural] at h; omega
+      exact heq (hiff.2 hz)
+  · intro e he r hr
+    obtain ⟨h1, h2⟩ := elemental_name_ne_isotope e.sym r (element_symbols_wellformed e he)
+    exact ⟨h1, h2, (nuclides_wellformed r hr).2.2.2.2.2.2 e.z⟩
 
 end Table
 end ArmiVerif.Nuclide
